@@ -13,7 +13,7 @@ Lemma rinv_links s r : rinv s r -> rlinks s r.
 Proof. unfold rinv, rlinks. tauto. Qed.
 
 
-Lemma pres_links s ac s' : Inv s -> step true true s ac = Some s' -> forall r, rlinks s' r.
+Lemma pres_links c s ac s' : Inv s -> step true true c s ac = Some s' -> forall r, rlinks s' r.
 Proof.
   intros Hi H r0. pose proof (rinv_links _ _ (I_R _ Hi r0)) as P. unfold rlinks in *.
   destruct (I_nd _ Hi) as (N1 & N2 & N3 & _).
